@@ -127,6 +127,8 @@ impl<'a, 'b> Iterator for HelpItemsIter<'a, 'b> {
 
     fn next(&mut self) -> Option<Self::Item> {
         loop {
+            #[cfg(bpaf_verif)]
+            crate::verif::tick();
             let item = self.items.get(self.cur)?;
             self.cur += 1;
 
@@ -622,6 +624,8 @@ impl Doc {
     #[inline(never)]
     pub(crate) fn write_help_item_groups(&mut self, mut items: HelpItems, include_env: bool) {
         while let Some(range) = items.find_group() {
+            #[cfg(bpaf_verif)]
+            crate::verif::tick();
             let mut dd = Dedup::default();
             for item in items.items.drain(range) {
                 if dd.check(&item) {
